@@ -112,7 +112,10 @@ class Interp(object):
                 c = s.value
                 if isinstance(c.func, ast.Attribute) and c.func.attr == "append" and isinstance(c.func.value, ast.Name):
                     v = c.args[0]
-                    self.appends.setdefault(c.func.value.id, []).append(pyfront.dotted(v) or ast.unparse(v))
+                    name = pyfront.dotted(v) or ast.unparse(v)
+                    self.appends.setdefault(c.func.value.id, []).append(name)
+                    if isinstance(self.env.get(c.func.value.id), list):
+                        self.env[c.func.value.id] = self.env[c.func.value.id] + [name]
                 else:
                     self.calls.append(c)
             else:
